@@ -121,7 +121,7 @@ func Apply(root *Node, donors []*Node, p Plan) (Mutation, bool) {
 			return Mutation{Op: p.Op}, false
 		}
 		d := pool[p.Pos%uint64(len(pool))]
-		l.Node.Val, l.Node.Bytes = d.Val, append([]byte(nil), d.Bytes...)
+		l.Node.Major, l.Node.Val, l.Node.Bytes = d.Major, d.Val, append([]byte(nil), d.Bytes...)
 		return Mutation{p.Op, l.Path, l.Class, note}, true
 	case OpSwap:
 		a, ok := pick(func(l Leaf) bool { return l.Node.Major <= 3 })
@@ -139,6 +139,7 @@ func Apply(root *Node, donors []*Node, p Plan) (Mutation, bool) {
 			return Mutation{Op: p.Op}, false
 		}
 		b := c[p.Pos%uint64(len(c))]
+		a.Node.Major, b.Node.Major = b.Node.Major, a.Node.Major
 		a.Node.Val, b.Node.Val = b.Node.Val, a.Node.Val
 		a.Node.Bytes, b.Node.Bytes = b.Node.Bytes, a.Node.Bytes
 		return Mutation{p.Op, a.Path, a.Class, " <-> " + b.Path}, true
